@@ -21,6 +21,7 @@ class AllcloseUnits(Contract):
     name = "unyt.array.allclose_units"
     properties = ("C19", "C18")
     atol_kind = "bare"
+    offsets = False                  # True: units with zero points (degC, degF) allowed, rtol == 0
     callsite_disabled = True
 
     def formals(self, it):
@@ -50,11 +51,18 @@ class AllcloseUnits(Contract):
         out = []
         for n, x in self.arrays(a):
             u = x.fields["units"]
-            out.append(("%s: unit well formed, no zero point (relative tolerances on offset scales are "
-                        "outside this contract)" % n,
-                        z3.And(S.unit_wf(u, P), z3.Length(S.ustr(u)) >= 1, S.offset(u) == 0)))
+            if self.offsets:
+                out.append(("%s: unit well formed (zero points allowed)" % n,
+                            z3.And(S.unit_wf(u, P), z3.Length(S.ustr(u)) >= 1)))
+            else:
+                out.append(("%s: unit well formed, no zero point (relative tolerances on offset scales are "
+                            "outside this contract)" % n,
+                            z3.And(S.unit_wf(u, P), z3.Length(S.ustr(u)) >= 1, S.offset(u) == 0)))
             out.append(("%s is a one-element quantity" % n, to_z3(N.arr_size(x)) == 1))
         out.append(("tolerances are not negative", z3.And(to_real(a.rtol) >= 0, self.atol_si(a) >= 0)))
+        if self.offsets:
+            out.append(("no relative tolerance (a relative tolerance on readings of an offset scale has no "
+                        "unit-independent meaning)", to_real(a.rtol) == 0))
         return out
 
     def atol_si(self, a):
@@ -96,6 +104,20 @@ class AllcloseUnits(Contract):
 class AllcloseUnitsAtolQuantity(AllcloseUnits):
     tag = "atol-quantity"
     atol_kind = "quantity"
+
+
+class AllcloseUnitsOffsetScales(AllcloseUnits):
+    """temperatures on offset scales: the absolute tolerance is a temperature DIFFERENCE -- only the
+    degree size of its unit counts, whatever zero point that unit has"""
+    tag = "offset-scales"
+    atol_kind = "quantity"
+    offsets = True
+
+
+class AllcloseUnitsOffsetScalesBareAtol(AllcloseUnits):
+    tag = "offset-scales-bare-atol"
+    atol_kind = "bare"
+    offsets = True
 
 
 class AssertAllcloseUnits(AllcloseUnits):
@@ -149,4 +171,5 @@ class HasDimensionsBare(HasDimensions):
     bare = True
 
 
-ALL = ["AllcloseUnits", "AllcloseUnitsAtolQuantity", "AssertAllcloseUnits", "HasDimensions", "HasDimensionsBare"]
+ALL = ["AllcloseUnits", "AllcloseUnitsAtolQuantity", "AllcloseUnitsOffsetScales", "AllcloseUnitsOffsetScalesBareAtol",
+       "AssertAllcloseUnits", "HasDimensions", "HasDimensionsBare"]
